@@ -9,7 +9,10 @@
 (* projected to placement-independent observables: result, address         *)
 (* relative to its chunk, sizes requested from the global allocator, per   *)
 (* chunk usable size and bytes allocated, accounting, capacity, limit.     *)
-(* The two projections must be equal.                                      *)
+(* The two projections must be equal -- except once the arena itself has   *)
+(* asked for an alignment above the chunk alignment: what happens then     *)
+(* depends on the absolute addresses the global allocator returned, which  *)
+(* differ between the two runs for reasons that are not another arena.     *)
 (***************************************************************************)
 EXTENDS Integers, Sequences, TLC, Json, IOUtils
 
@@ -26,7 +29,7 @@ Step ==
   /\ LET x == Rec[l]
          y == Rec[l + 1]
      IN /\ Chk("C20", "PairedEvents", x.p = y.p /\ x.ar = y.ar /\ x.i = y.i /\ x.solo = 0 /\ y.solo = 1, <<x.p, y.p, x.i, y.i>>)
-        /\ Chk("C20", "BehaviourIndependentOfOtherArenas", Obs(x) = Obs(y), <<Obs(x), Obs(y)>>)
+        /\ Chk("C20", "BehaviourIndependentOfOtherArenas", x.addrdep = 1 \/ Obs(x) = Obs(y), <<Obs(x), Obs(y)>>)
   /\ l' = l + 2
 
 Init == l = 1
